@@ -1,6 +1,7 @@
 package eng
 
 import (
+	"bytes"
 	"crawshaw.io/sqlite"
 	"crawshaw.io/sqlite/sqlitex"
 	"runtime/debug"
@@ -174,6 +175,9 @@ func runScenario(sc *seqScenario, sid int, tr *Trace, st *Stats, workdir string)
 	w.sid = sid
 	defer w.cleanup()
 	w.orc.scenario = func() any { return sc }
+	if sc.Family == "stalelock" {
+		w.mute = true // oracle-only: the model's lock store never goes back
+	}
 	if sc.Family == "runseq" {
 		w.mute = true // oracle-only: rounds are started by RunSequencer's own ticker
 		w.autoClock = true
@@ -547,6 +551,25 @@ func (w *seqWorld) exec(c *seqCmd) {
 		os.Remove(in.cache + "-wal")
 		w.orc.cacheLost = true
 		w.ev("%d cachelose", in.id)
+	case "lockrollback":
+		// the lock store goes back to an earlier value (restored from a backup, pointed at an old replica) while
+		// every process of the log is down
+		for _, x := range w.insts {
+			if x.alive {
+				return
+			}
+		}
+		w.mu.Lock()
+		if n := len(w.lockVersions); n > 0 {
+			v := w.lockVersions[n-1-int(c.V)%n]
+			w.locks[w.logID] = bytes.Clone(v)
+			w.mu.Unlock()
+			w.orc.tampered = true
+			w.ev("- lockrollback %s", w.keys.parseCk(v).Token())
+			w.st.Count("op:lockrollback")
+		} else {
+			w.mu.Unlock()
+		}
 	case "legacyize":
 		// the cache file of a log that ran v0.8.0 or earlier: some rows live only in the 128-bit "cache" table
 		if in.alive {
